@@ -57,6 +57,21 @@ def defs_of(f, name: str) -> List[ast.expr]:
   return out
 
 
+def deref(f, expr, depth: int = 3):
+  """`expr`, or what it names: a local with exactly one plain assignment is
+  replaced by the assigned expression (a named intermediate result)."""
+  while depth > 0 and isinstance(expr, ast.Name):
+    ds = defs_of(f, expr.id)
+    stores = [n for n in walk_function(f.node) if isinstance(
+        n, ast.Name) and n.id == expr.id and isinstance(
+            n.ctx, (ast.Store, ast.Del))]
+    if len(ds) != 1 or len(stores) != 1:
+      break
+    expr = ds[0]
+    depth -= 1
+  return expr
+
+
 def expand(f, expr, depth: int = 3):
   """Nodes of `expr`, following local names to what they were assigned."""
   for n in ast.walk(expr):
@@ -121,3 +136,89 @@ def branch_when(test, atom_pred, atom_value: bool = True) -> Optional[str]:
     return None
   v = ev(test)
   return None if v is None else ('true' if v else 'false')
+
+
+def _store_targets(st):
+  """(target node, kind, value) for every local name a statement binds:
+  kind 'value' (x = v), 'elt' (x is an element of an unpacked v), 'rest'
+  (starred element of an unpacked v: the remaining elements), 'iter'."""
+  out = []
+
+  def tgt(t, v, kind='value'):
+    if isinstance(t, ast.Name):
+      out.append((t, kind, v))
+    elif isinstance(t, ast.Starred):
+      tgt(t.value, v, 'rest')
+    elif isinstance(t, (ast.Tuple, ast.List)):
+      if kind == 'value' and isinstance(v, (ast.Tuple, ast.List)) and len(
+          v.elts) == len(t.elts) and not any(
+              isinstance(x, ast.Starred) for x in list(t.elts) + list(v.elts)):
+        for a, b in zip(t.elts, v.elts):
+          tgt(a, b)
+      else:
+        for a in t.elts:
+          tgt(a, v, 'rest' if isinstance(a, ast.Starred) else 'elt')
+
+  if isinstance(st, ast.Assign):
+    for t in st.targets:
+      tgt(t, st.value)
+  elif isinstance(st, ast.AnnAssign) and st.value is not None:
+    tgt(st.target, st.value)
+  elif isinstance(st, ast.AugAssign):
+    tgt(st.target, st, 'aug')
+  elif isinstance(st, (ast.For, ast.AsyncFor)):
+    tgt(st.target, st.iter, 'iter')
+  elif isinstance(st, (ast.With, ast.AsyncWith)):
+    for it in st.items:
+      if it.optional_vars is not None:
+        tgt(it.optional_vars, it.context_expr, 'with')
+  return out
+
+
+def reaching(g, n: int, name: str):
+  """Definitions of local `name` that reach CFG node n: a list of
+  (def node id, kind, value expression).  The function's parameters are not
+  definitions here: an empty list means the parameter (or a free name)."""
+  defs = {}
+  for m in g.nodes():
+    st = g.stmt[m]
+    if st is None or g.kind[m] not in ('stmt', 'for', 'with'):
+      continue
+    for t, kind, v in _store_targets(st):
+      if t.id == name:
+        defs.setdefault(m, []).append((kind, v))
+  if not defs:
+    return []
+  out = []
+  # backwards search from n, stopping at definitions
+  pred = {k: [a for a, _ in v] for k, v in g.pred.items()}
+  seen, stack = set(), list(pred.get(n, []))
+  entry_reached = False
+  while stack:
+    m = stack.pop()
+    if m in seen:
+      continue
+    seen.add(m)
+    if m in defs:
+      for kind, v in defs[m]:
+        out.append((m, kind, v))
+      continue
+    if m == g.entry:
+      entry_reached = True
+    stack.extend(pred.get(m, []))
+  if entry_reached and g.entry not in defs:
+    out.append((g.entry, 'param', None))
+  return out
+
+
+def value_at(g, n: int, expr, depth: int = 4):
+  """`expr` as evaluated at CFG node n, with locals that have one reaching
+  plain definition (`x = v`) replaced by v.  Returns (expression, node at
+  which it is evaluated)."""
+  while depth > 0 and isinstance(expr, ast.Name):
+    rd = reaching(g, n, expr.id)
+    if len(rd) != 1 or rd[0][1] != 'value':
+      break
+    n, _, expr = rd[0]
+    depth -= 1
+  return expr, n
